@@ -34,9 +34,10 @@ func c16PointwiseMax(p *Program, r *Report) {
 		r.Unresolved("VersionVector.Merge")
 		return
 	}
-	g := p.ig(fn)
+	g := p.igx(fn) // the loops may live in single-use helpers taking the maps
 	// operand index of a map value: 0/1 = field of that parameter, -1 = not an operand's map (the fresh result)
 	operandOf := func(v ssa.Value) int {
+		v = g.res(v)
 		_, base := fieldLoad(v)
 		if base == nil {
 			return -1
